@@ -122,6 +122,20 @@ def draw_sched(rng, line=True):
     return d
 
 
+def draw_clock_jumps(rng, span=0.3, p=0.25):
+    """Clock fault: the wall clock is stepped (NTP correction, VM resume) once or twice during the
+    run; the monotonic clock, and therefore every timeout the simulator serves, is not."""
+    if rng.random() >= p:
+        return []
+    return [{"t": rng.random() * span, "delta": rng.choice([-7200.0, -3600.0, -30.0, -2.0, 2.0, 45.0, 3600.0])}
+            for _ in range(rng.choice([1, 1, 2]))]
+
+
+def schedule_clock_jumps(sim, jumps):
+    for j in jumps or ():
+        sim.after(j["t"], lambda d=j["delta"]: sim.step_wall_clock(d))
+
+
 def bystander_for(index, every=8, phase=6):
     """One run in `every` also carries a bystander node (see WorldA.start_bystander); decided by the
     run index alone so that the rest of the scenario stream is what it would be without it."""
